@@ -430,22 +430,3 @@ def KnownDedupShape (g : Fir.Unit) (gs : List (Ex × List String)) : Bool :=
     | [] => false
 
 end LokiModel.C34
-
-namespace LokiModel.C34
-
-/-- class `dedup-nonadjacent-duplicate-keywords` (oracle-only kind `dedupkw`; `vals` = the keyword VALUES of the call in source
-order, as canonical text): two equal values with a different value between them — `itertools.groupby` merges only adjacent
-duplicates, so the later keyword survives in the call although its dummy is merged away in the callee -/
-def KnownDedupKwAdj (vals : List String) : Bool :=
-  let rec go : List String → Bool
-    | [] => false
-    | v :: rest =>
-        -- a later equal value after at least one different value
-        ((rest.dropWhile (· == v)).contains v) || go rest
-  go vals
-
-example : KnownDedupKwAdj ["i", "j", "i"] = true := by decide
-example : KnownDedupKwAdj ["i", "i", "m"] = false := by decide
-example : KnownDedupKwAdj ["i", "j", "j"] = false := by decide
-
-end LokiModel.C34
